@@ -1,6 +1,8 @@
 use crate::diagnostic_emitter::MosResult;
 use crate::impl_request_handler;
-use crate::lsp::{to_location, LspContext, RequestHandler};
+use crate::lsp::{
+    byte_offset_to_character, character_to_byte_offset, to_location, LspContext, RequestHandler,
+};
 use itertools::Itertools;
 use lsp_types::request::{PrepareRenameRequest, Rename};
 use lsp_types::{
@@ -30,7 +32,6 @@ impl RequestHandler<PrepareRenameRequest> for PrepareRenameRequestHandler {
             let file_path = &params.text_document.uri.to_file_path().unwrap();
 
             let source_line = params.position.line as usize;
-            let source_column = params.position.character as usize;
 
             if let Some(source_file) = codegen.tree().files.get(file_path) {
                 // The position is supplied by the client, so it may lie beyond the end of the file or of the line,
@@ -39,9 +40,10 @@ impl RequestHandler<PrepareRenameRequest> for PrepareRenameRequestHandler {
                     return Ok(None);
                 }
                 let line = source_file.file.source_line(source_line);
-                if !line.is_char_boundary(source_column) {
+                if params.position.character > byte_offset_to_character(line, line.len()) {
                     return Ok(None);
                 }
+                let source_column = character_to_byte_offset(line, params.position.character);
 
                 // Try to find the start of identifier under the cursor
                 let start = line[..source_column]
@@ -73,7 +75,7 @@ impl RequestHandler<PrepareRenameRequest> for PrepareRenameRequestHandler {
                         file_path.to_str().unwrap(),
                         LineCol {
                             line: source_line,
-                            column: source_column,
+                            column: line[..source_column].chars().count(),
                         },
                     )
                     .is_empty()
@@ -82,11 +84,11 @@ impl RequestHandler<PrepareRenameRequest> for PrepareRenameRequestHandler {
                     let range = lsp_types::Range {
                         start: lsp_types::Position {
                             line: source_line as u32,
-                            character: start as u32,
+                            character: byte_offset_to_character(line, start),
                         },
                         end: lsp_types::Position {
                             line: source_line as u32,
-                            character: end as u32,
+                            character: byte_offset_to_character(line, end),
                         },
                     };
                     return Ok(Some(PrepareRenameResponse::Range(range)));
